@@ -59,11 +59,13 @@ func downloadRules(c *Check, rule string) (D string) {
 // sentinelUses scans every reference to a package-level variable (by
 // abbreviated name): allowed are return operands and the second argument of
 // errors.Is. Returns the number of allowed uses and the others.
-func sentinelUses(c *Check, name string) (int, []string) {
+func sentinelUses(c *Check, name string) (int, []string) { return sentinelUsesP(c.P, name) }
+
+func sentinelUsesP(P *Prog, name string) (int, []string) {
 	i := strings.LastIndex(name, ".")
-	pkgPath := strings.Replace(name[:i], "ncg", c.P.ModPath, 1)
+	pkgPath := strings.Replace(name[:i], "ncg", P.ModPath, 1)
 	vname := name[i+1:]
-	pk := c.P.All[pkgPath]
+	pk := P.All[pkgPath]
 	if pk == nil {
 		return 0, []string{"package not loaded: " + pkgPath}
 	}
@@ -76,9 +78,9 @@ func sentinelUses(c *Check, name string) (int, []string) {
 		bad = append(bad, "the sentinel is exported")
 	}
 	n := 0
-	for _, mp := range c.P.Pkgs {
+	for _, mp := range P.Pkgs {
 		for _, f := range mp.Syntax {
-			if strings.HasSuffix(c.P.Fset.Position(f.Pos()).Filename, "_test.go") {
+			if strings.HasSuffix(P.Fset.Position(f.Pos()).Filename, "_test.go") {
 				continue
 			}
 			var stack []ast.Node
@@ -100,10 +102,34 @@ func sentinelUses(c *Check, name string) (int, []string) {
 					if fn, ok := typeutil.Callee(mp.TypesInfo, p).(*types.Func); ok && fn.FullName() == "errors.Is" && len(p.Args) == 2 && p.Args[1] == ast.Expr(id) {
 						n++
 					} else {
-						bad = append(bad, c.P.pos(id.Pos())+": passed to a call")
+						bad = append(bad, P.pos(id.Pos())+": passed to a call")
+					}
+				case *ast.AssignStmt:
+					// held in a local error variable that is only returned, re-assigned or tested
+					okLocal := false
+					for i, r := range p.Rhs {
+						if ast.Expr(id) != r || i >= len(p.Lhs) || len(p.Lhs) != len(p.Rhs) {
+							continue
+						}
+						lid, isId := p.Lhs[i].(*ast.Ident)
+						if !isId {
+							continue
+						}
+						lobj := mp.TypesInfo.Defs[lid]
+						if lobj == nil {
+							lobj = mp.TypesInfo.Uses[lid]
+						}
+						if v, isVar := lobj.(*types.Var); isVar && !isPkgLevel(v) && localOnlyReturnedOrTested(mp.TypesInfo, f, v) {
+							okLocal = true
+						}
+					}
+					if okLocal {
+						n++
+					} else {
+						bad = append(bad, P.pos(id.Pos())+": assigned to something other than a local that is only returned or tested")
 					}
 				default:
-					bad = append(bad, c.P.pos(id.Pos())+": used in "+strings.TrimPrefix(fmt.Sprintf("%T", parent), "*ast."))
+					bad = append(bad, P.pos(id.Pos())+": used in "+strings.TrimPrefix(fmt.Sprintf("%T", parent), "*ast."))
 				}
 				return true
 			})
@@ -147,6 +173,19 @@ func checkC18(c *Check) {
 		if strings.HasPrefix(a, "+ErrIs(") && !strings.Contains(a, "ErrCacheMiss") {
 			i := strings.LastIndex(a, ", ")
 			sentinel = strings.TrimSuffix(a[i+2:], ")")
+		}
+	}
+	if sentinel == "" {
+		// every test against it was decided by the loader's sentinel oracle: find it in the source
+		for _, cs := range c.P.callSites(func(n string) bool { return n == "errors.Is" }) {
+			if !strings.HasSuffix(cs.Fn.Pkg.PkgPath, "/revocation/crl") || len(cs.Call.Args) != 2 {
+				continue
+			}
+			if id := rootIdent(cs.Call.Args[1]); id != nil {
+				if v, ok := cs.Fn.Pkg.TypesInfo.Uses[id].(*types.Var); ok && isPkgLevel(v) && !v.Exported() {
+					sentinel = c.P.abbrev(v.Pkg().Path()) + "." + v.Name()
+				}
+			}
 		}
 	}
 	c.add("O-C18.4", "not-found sentinel identified", "the delta-not-found sentinel is a package-level error value", strings.HasPrefix(sentinel, "ncg/revocation/crl."), "", "sentinel: "+sentinel)
@@ -334,4 +373,54 @@ func parserExhaustsInput(c *Check) {
 		c.add("O-C18.4", "distribution-point parser reads the whole extension", "the outer loop of "+fs.Obj.Name()+" is left only by its own condition or by an error return (a break would drop the locations that follow)", len(bad) == 0, c.P.pos(fs.Decl.Pos()), bad...)
 	}
 	c.floor("distribution-point parsers", 1, n)
+}
+
+// localOnlyReturnedOrTested: every use of the local error variable v is an
+// operand of return, the first argument of errors.Is, a comparison with nil, or
+// an assignment to v itself.
+func localOnlyReturnedOrTested(info *types.Info, file *ast.File, v *types.Var) bool {
+	ok := true
+	var stack []ast.Node
+	ast.Inspect(file, func(nd ast.Node) bool {
+		if nd == nil {
+			stack = stack[:len(stack)-1]
+			return true
+		}
+		stack = append(stack, nd)
+		id, isId := nd.(*ast.Ident)
+		if !isId || (info.Uses[id] != v && info.Defs[id] != v) || len(stack) < 2 {
+			return true
+		}
+		switch p := stack[len(stack)-2].(type) {
+		case *ast.ReturnStmt:
+		case *ast.AssignStmt:
+			isLHS := false
+			for _, l := range p.Lhs {
+				if l == ast.Expr(id) {
+					isLHS = true
+				}
+			}
+			if !isLHS {
+				ok = false
+			}
+		case *ast.ValueSpec:
+		case *ast.BinaryExpr:
+			other := p.X
+			if other == ast.Expr(id) {
+				other = p.Y
+			}
+			if tv, has := info.Types[other]; !has || !tv.IsNil() {
+				ok = false
+			}
+		case *ast.CallExpr:
+			fn, isFn := typeutil.Callee(info, p).(*types.Func)
+			if !isFn || fn.FullName() != "errors.Is" || len(p.Args) != 2 || p.Args[0] != ast.Expr(id) {
+				ok = false
+			}
+		default:
+			ok = false
+		}
+		return true
+	})
+	return ok
 }
